@@ -121,6 +121,21 @@ def oracle_c08(case: dict, obs: dict) -> list[tuple[dict, str]]:
                 out.append(({"clause": "too-few-transmissions", "max_retries": spec["max_retries"]},
                             f"caller {i}: {n} transmissions (budget {limit}), failed at {rec['t_done']} but its timeout expires at {t_global}"))
 
+    # 1c. "exceeded maximum retries" is only ever said to a caller whose command really was transmitted budget-many times. Holds for
+    #     callers sharing a frame too: the frame's total transmission count is an upper bound of this caller's own
+    if not has_faults(case):
+        for i, spec in enumerate(case["callers"]):
+            rec = res.get(i, {})
+            if T.CMDS[spec["cmd"]]["src"] != T.HGI:
+                continue  # an impersonating command is preceded by a notice (a command of its own): the message may be about that one
+            if rec.get("outcome") == "exc" and "Exceeded maximum retries" in rec.get("msg", ""):
+                n_frame = sum(1 for w in writes if w["caller"] >= 0 and frames.get(w["caller"]) == frames[i])
+                limit = 1 + min(spec["max_retries"], 3)
+                if n_frame < limit:
+                    out.append(({"clause": "gave-up-before-budget", "shared_frame": frames[i] in dup_frames},
+                                f"caller {i} ({frames[i]}) was told 'Exceeded maximum retries' after {n_frame} transmission(s) of that frame (budget {limit})"))
+                    break
+
     # 4. one in flight (by virtual time): a first transmission of Y happens only when every earlier-started X is answered
     firsts = sorted((w for w in writes if w["attempt"] == 1 and w["caller"] >= 0), key=lambda w: w["tick"])
     for idx, w in enumerate(firsts):
